@@ -97,7 +97,9 @@ def read_groundwater_table(
                     z_gw.loc[date] = depth
 
                 # Interpolate daily groundwater depths
-                z_gw = z_gw.interpolate()
+                # (days before the first observation take the first observed depth, as in the
+                # "Constant" method; interpolate() alone leaves them undefined)
+                z_gw = z_gw.interpolate(limit_direction="both")
 
         # assign values to Paramstruct object
         ParamStruct.z_gw = z_gw.values
